@@ -707,11 +707,20 @@ def fan_scenarios(seed, tier):
                 [{"op": "despawn", "c": x} for x in four] + [{"op": "spawn", "c": "e"}] + [{"op": "inject", "m": 60 + i} for i in range(3)])
     # devices attached at the same moment (the manager starts every device from a goroutine of its own): each gets an output
     # of its own, each receives everything injected afterwards, each can be removed
-    for rep in range(60 if tier == "quick" else 600):
-        many = ["a", "b", "c", "d", "e", "f"][:2 + rep % 5]
+    # (the window in which two attaching devices can see the same free slot is a few instructions wide: three waves per
+    # scenario, many scenarios)
+    for rep in range(120 if tier == "quick" else 1000):
         pre = [{"op": "spawn", "c": "z"}] if rep % 3 == 0 else []
-        add(rng.choice([0, 1, 8]), pre + [{"op": "spawn_many", "cs": many}] + [{"op": "inject", "m": i + 1} for i in range(4)] +
-            [{"op": "despawn", "c": x} for x in many] + [{"op": "inject", "m": 10 + i} for i in range(2)])
+        ops, m = list(pre), 0
+        for wave in (1, 2, 3):
+            many = [x + str(wave) for x in ["a", "b", "c", "d", "e", "f"][:2 + (rep + wave) % 5]]
+            ops.append({"op": "spawn_many", "cs": many})
+            for _ in range(3):
+                m += 1
+                ops.append({"op": "inject", "m": m})
+            ops += [{"op": "despawn", "c": x} for x in many]
+        m += 1
+        add(rng.choice([0, 1, 8]), ops + [{"op": "inject", "m": m}])
     n = 150 if tier == "quick" else 3000
     names = ["a", "b", "c", "d"]
     for _ in range(n):
